@@ -1,20 +1,25 @@
 import Exetera.Lemmas.GroupByIndexed
+import Exetera.Lemmas.GroupByConservative
 /-!
 # C07 — group-by results equal the group-wise reference computation
 
 The theorems are about the definitions of `Model/GroupBy.lean`, `Model/SortIndex.lean` and `Model/Spans.lean` that the
-correspondence driver runs (`Driver/C07.lean`), with the `fix:` patches D18 / NC08b applied (`Variant.repaired`), and about
-`Spec/GroupBy.lean`.  They hold for every number of rows (zero included), every number ≥ 1 of key columns and all values.
+correspondence driver runs (`Driver/C07.lean`), with the `fix:` patches D18 / NC08b / D20 applied (`Variant.repaired`), and
+about `Spec/GroupBy.lean`.  They hold for every number of rows (zero included), every number ≥ 1 of key columns, all
+values and ANY mix of key kinds: a key column is a list of values compared in its own order (numbers of any dtype as
+they are; fixed and indexed strings rank-coded in their bytewise order, which is all the code looks at).
 
 * a key column is `(cast, data)`; `keyRows n cols` are the frame's key tuples, one per row;
 * `.ok` results mean: no out-of-bounds access in any modelled kernel, no ValueError from a guard;
-* `Faithful keys` — every column's stacking cast preserves `<` on the values that occur in that column — is the one
-  hypothesis that is NOT always true of the code: it holds when all key columns have one dtype (`same_dtype_faithful`)
-  and for mixed dtypes as long as the promotion is exact on the data (e.g. int64 below 2^53 with a float column), and
-  fails for int64 beyond 2^53 stacked with a float column and for integers stacked with strings whose decimal text
-  order differs from their numeric order (finding D20, `Witness/C07.lean`).  It is exactly the negation of the D20
-  matcher of the harness, so every input not assigned to D20 is covered by a theorem.  The theorems that need it carry
-  `_partial` in their name; next to them the statement for single-dtype keys is proved without any such hypothesis.
+* `cast` is what stacking the key columns into one numpy array did to the column AS FOUND (finding D20): since fix D20
+  (`groupby .repaired` = `groupbyCols`: every key column is compared in its own dtype) the code never applies it, and the
+  full theorems `groupby_eq_spec`, `groupby_count_eq_spec`, `drop_duplicates_eq_spec`, `groupby_indexed_eq_spec`,
+  `sorted_hint_irrelevant` carry NO hypothesis about it.
+* `Faithful keys` — every column's stacking cast preserves `<` on the values that occur in that column — was the
+  hypothesis of the `_partial` theorems while D20 was open (true for keys of one dtype, false for int64 beyond 2^53
+  next to a float column and for integers next to strings). The `_partial` statements are kept (now corollaries);
+  `stacked_eq_columnwise_on_faithful_keys` shows that on such keys the repair changes nothing; the as-found behaviour
+  on the other keys is `Witness/C07.lean`.
 -/
 namespace Exetera.Props.C07
 open Exetera Exetera.GroupBy Exetera.Spec Exetera.Spans
@@ -70,54 +75,66 @@ example : SortIndex.datasetSortIndex [[1, 0, 1, 0], [5, 7, 3, 7]] (List.range 4)
     targets), sorted or not, with or without a truthful hint: the call succeeds; the written key columns are the columns
     of `outKeys`, the distinct key tuples of the frame in ascending order; the value column holds, for each of them, the
     minimum / maximum / first / last of the target values of that key's rows taken in ORIGINAL row order.
-    Hypothesis `Faithful` ⇒ `_partial` (see the header and `groupby_eq_spec` below). -/
-theorem groupby_eq_spec_partial (agg : Agg) (keys : List KeyCol) (hint : Bool) (target : List Int) (n : Nat)
-    (hframe : Frame keys n) (htarget : target.length = n) (hcast : Faithful keys)
+    No hypothesis on the dtypes of the key columns (fix D20). -/
+theorem groupby_eq_spec (agg : Agg) (keys : List KeyCol) (hint : Bool) (target : List Int) (n : Nat)
+    (hframe : Frame keys n) (htarget : target.length = n)
     (hhint : hint = true → RowsSorted (keyRows n (cols keys))) :
     ∃ kcols vals outKeys, groupbyAgg .repaired agg keys hint [.plain target] = .ok ⟨kcols, [.ints vals]⟩ ∧
       ColumnsOf kcols outKeys ∧ IsGroupBy (keyRows n (cols keys)) target (aggSpec agg) outKeys vals := by
   obtain ⟨k0, ks, rfl, hrect⟩ := frame_cases hframe
-  have := groupbyAgg_spec agg k0 ks hint target n hrect htarget hcast
+  have := groupbyAgg_spec agg k0 ks hint target n hrect htarget
     (fun h => sortedRows_of_rowsSorted _ n hrect (hhint h))
   rw [← keyRows_eq_rowsBy _ n hrect] at this
   exact this
 
-/- FULL STATEMENT (not provable: refuted by `Witness.C07.d20_float_collapses_groups`, open finding D20):
-
-   theorem groupby_eq_spec_all_casts (agg) (keys) (hint) (target) (n) (hframe : Frame keys n) (htarget : target.length = n)
-       (hhint : hint = true → RowsSorted (keyRows n (cols keys))) :
-       ∃ kcols vals outKeys, groupbyAgg .repaired agg keys hint [.plain target] = .ok ⟨kcols, [.ints vals]⟩ ∧
-         ColumnsOf kcols outKeys ∧ IsGroupBy (keyRows n (cols keys)) target (aggSpec agg) outKeys vals
-
-   i.e. the same without `Faithful keys`: for key columns of different dtypes numpy's promotion in
-   `np.asarray([...])` can identify or reorder values. What holds without any hypothesis on casts is the statement for
-   keys of one dtype: -/
-
-/-- the full-strength statement for key columns of one dtype (any number of them) -/
-theorem groupby_eq_spec (agg : Agg) (keys : List KeyCol) (hint : Bool) (target : List Int) (n : Nat)
-    (hframe : Frame keys n) (htarget : target.length = n) (hdtype : SameDtype keys)
+/-- the statement registered while D20 was open (hypothesis `Faithful keys`); now a corollary of `groupby_eq_spec` -/
+theorem groupby_eq_spec_partial (agg : Agg) (keys : List KeyCol) (hint : Bool) (target : List Int) (n : Nat)
+    (hframe : Frame keys n) (htarget : target.length = n) (_hcast : Faithful keys)
     (hhint : hint = true → RowsSorted (keyRows n (cols keys))) :
     ∃ kcols vals outKeys, groupbyAgg .repaired agg keys hint [.plain target] = .ok ⟨kcols, [.ints vals]⟩ ∧
       ColumnsOf kcols outKeys ∧ IsGroupBy (keyRows n (cols keys)) target (aggSpec agg) outKeys vals :=
-  groupby_eq_spec_partial agg keys hint target n hframe htarget (same_dtype_faithful hdtype) hhint
+  groupby_eq_spec agg keys hint target n hframe htarget hhint
+
+-- non-vacuity, D20's first witness: int64 keys 2^53+1, 2^53, 2^53+1 next to a float64 key column (`castF64` is what
+-- stacking did to the first column): a well-formed frame, NOT faithful, and the repaired code returns the two groups
+example : Frame [⟨castF64, [9007199254740993, 9007199254740992, 9007199254740993]⟩, ⟨id, [0, 0, 0]⟩] 3 ∧
+    ¬ Faithful [⟨castF64, [9007199254740993, 9007199254740992, 9007199254740993]⟩, ⟨id, [0, 0, 0]⟩] := by
+  refine ⟨⟨by simp, by simp⟩, fun h => ?_⟩
+  have := h _ (List.mem_cons_self ..) 9007199254740992 (by simp) 9007199254740993 (by simp) (by decide)
+  revert this; decide
+private theorem ex_sort_d20 :
+    SortIndex.datasetSortIndex [[9007199254740993, 9007199254740992, 9007199254740993], [0, 0, 0]] (List.range 3) = .ok [1, 0, 2] := by
+  simp [SortIndex.datasetSortIndex, SortIndex.sortLoop, SortIndex.sortPass, SortIndex.gather, SortIndex.argsortStable, getE,
+    List.mergeSort, List.zipIdx, List.range, List.range.loop, SortIndex.leKey, List.MergeSort.Internal.splitInTwo]
+private theorem ex_g_d20 :
+    groupby .repaired [⟨castF64, [9007199254740993, 9007199254740992, 9007199254740993]⟩, ⟨id, [0, 0, 0]⟩] false =
+      .ok ⟨some [1, 0, 2], [0, 1, 3]⟩ := by
+  have h2 : keysSorted [[9007199254740993, 9007199254740992, 9007199254740993], [0, 0, 0]] = false := by decide
+  simp only [groupby, groupbyCols, readKeys, List.map, List.all, nrows, List.length, Nat.zero_add, Nat.reduceAdd, h2,
+    BEq.rfl, Bool.and_self, if_true, Bool.or_self, Bool.false_eq_true, if_false, ex_sort_d20]
+  rfl
+example : groupbyAgg .repaired .max [⟨castF64, [9007199254740993, 9007199254740992, 9007199254740993]⟩, ⟨id, [0, 0, 0]⟩] false
+    [.plain [5, 6, 7]] = .ok ⟨[[9007199254740992, 9007199254740993], [0, 0]], [.ints [6, 7]]⟩ := by
+  simp only [groupbyAgg, ex_g_d20]
+  rfl
 
 /-- `min`, spelled out: value `j` is the minimum of the target over the rows whose key tuple is `outKeys[j]` -/
 theorem groupby_min_eq_spec (keys : List KeyCol) (hint : Bool) (target : List Int) (n : Nat)
-    (hframe : Frame keys n) (htarget : target.length = n) (hdtype : SameDtype keys)
+    (hframe : Frame keys n) (htarget : target.length = n)
     (hhint : hint = true → RowsSorted (keyRows n (cols keys))) :
     ∃ kcols vals outKeys, groupbyAgg .repaired .min keys hint [.plain target] = .ok ⟨kcols, [.ints vals]⟩ ∧
       ColumnsOf kcols outKeys ∧ DistinctAscending (keyRows n (cols keys)) outKeys ∧
       vals.map some = outKeys.map (fun k => (select (keyRows n (cols keys)) target k).min?) :=
-  groupby_eq_spec .min keys hint target n hframe htarget hdtype hhint
+  groupby_eq_spec .min keys hint target n hframe htarget hhint
 
 /-- `last`, spelled out: value `j` is the target value of the LAST row (in original order) whose key tuple is `outKeys[j]` -/
 theorem groupby_last_eq_spec (keys : List KeyCol) (hint : Bool) (target : List Int) (n : Nat)
-    (hframe : Frame keys n) (htarget : target.length = n) (hdtype : SameDtype keys)
+    (hframe : Frame keys n) (htarget : target.length = n)
     (hhint : hint = true → RowsSorted (keyRows n (cols keys))) :
     ∃ kcols vals outKeys, groupbyAgg .repaired .last keys hint [.plain target] = .ok ⟨kcols, [.ints vals]⟩ ∧
       ColumnsOf kcols outKeys ∧ DistinctAscending (keyRows n (cols keys)) outKeys ∧
       vals.map some = outKeys.map (fun k => (select (keyRows n (cols keys)) target k).getLast?) :=
-  groupby_eq_spec .last keys hint target n hframe htarget hdtype hhint
+  groupby_eq_spec .last keys hint target n hframe htarget hhint
 
 -- non-vacuity: an unsorted two-key frame with a repeated key tuple; hypotheses hold, and the model's answer is the reference
 example : Frame [⟨id, [1, 0, 1, 0, 1]⟩, ⟨id, [5, 7, 5, 7, 3]⟩] 5 ∧ SameDtype [⟨id, [1, 0, 1, 0, 1]⟩, ⟨id, [5, 7, 5, 7, 3]⟩] :=
@@ -125,9 +142,14 @@ example : Frame [⟨id, [1, 0, 1, 0, 1]⟩, ⟨id, [5, 7, 5, 7, 3]⟩] 5 ∧ Sam
 private theorem ex_sort : SortIndex.datasetSortIndex [[1, 0, 1, 0, 1], [5, 7, 5, 7, 3]] (List.range 5) = .ok [1, 3, 4, 0, 2] := by
   simp [SortIndex.datasetSortIndex, SortIndex.sortLoop, SortIndex.sortPass, SortIndex.gather, SortIndex.argsortStable, getE,
     List.mergeSort, List.zipIdx, List.range, List.range.loop, SortIndex.leKey, List.MergeSort.Internal.splitInTwo]
+private theorem ex_g_5 : groupby .repaired [⟨id, [1, 0, 1, 0, 1]⟩, ⟨id, [5, 7, 5, 7, 3]⟩] false = .ok ⟨some [1, 3, 4, 0, 2], [0, 2, 3, 5]⟩ := by
+  have h2 : keysSorted [[1, 0, 1, 0, 1], [5, 7, 5, 7, 3]] = false := by decide
+  simp only [groupby, groupbyCols, readKeys, List.map, List.all, nrows, List.length, Nat.zero_add, Nat.reduceAdd, h2,
+    BEq.rfl, Bool.and_self, if_true, Bool.or_self, Bool.false_eq_true, if_false, ex_sort]
+  rfl
 example : groupbyAgg .repaired .last [⟨id, [1, 0, 1, 0, 1]⟩, ⟨id, [5, 7, 5, 7, 3]⟩] false [.plain [10, 20, 30, 40, 50]] =
     .ok ⟨[[0, 1, 1], [7, 3, 5]], [.ints [40, 50, 30]]⟩ := by
-  simp only [groupbyAgg, groupby, stack, List.map, List.all, nrows, id, List.length, Nat.zero_add, Nat.reduceAdd, ex_sort]
+  simp only [groupbyAgg, ex_g_5]
   rfl
 example : groupbyAgg .repaired .min [⟨id, [0, 0, 1, 1, 1]⟩] true [.plain [4, 2, 9, 7, 8]] =
     .ok ⟨[[0, 1]], [.ints [2, 7]]⟩ := rfl
@@ -137,73 +159,135 @@ example : RowsSorted (keyRows 5 (cols [⟨id, [0, 0, 1, 1, 1]⟩])) := by simp [
 
 /-- **`df.groupby(by, hint).count(ddf)`**: one row per distinct key tuple, ascending, with the number of rows carrying
     that key; **the counts sum to the number of rows**. -/
-theorem groupby_count_eq_spec_partial (keys : List KeyCol) (hint : Bool) (n : Nat) (hframe : Frame keys n)
-    (hcast : Faithful keys) (hhint : hint = true → RowsSorted (keyRows n (cols keys))) :
+theorem groupby_count_eq_spec (keys : List KeyCol) (hint : Bool) (n : Nat) (hframe : Frame keys n)
+    (hhint : hint = true → RowsSorted (keyRows n (cols keys))) :
     ∃ kcols counts outKeys, groupbyCount .repaired keys hint = .ok ⟨kcols, [.ints counts]⟩ ∧
       ColumnsOf kcols outKeys ∧ IsGroupCount (keyRows n (cols keys)) outKeys counts ∧ counts.sum = n := by
   obtain ⟨k0, ks, rfl, hrect⟩ := frame_cases hframe
-  have := groupbyCount_spec k0 ks hint n hrect hcast (fun h => sortedRows_of_rowsSorted _ n hrect (hhint h))
+  have := groupbyCount_spec k0 ks hint n hrect (fun h => sortedRows_of_rowsSorted _ n hrect (hhint h))
   rw [← keyRows_eq_rowsBy _ n hrect] at this
   exact this
 
-theorem groupby_count_eq_spec (keys : List KeyCol) (hint : Bool) (n : Nat) (hframe : Frame keys n)
-    (hdtype : SameDtype keys) (hhint : hint = true → RowsSorted (keyRows n (cols keys))) :
+/-- the statement registered while D20 was open; now a corollary -/
+theorem groupby_count_eq_spec_partial (keys : List KeyCol) (hint : Bool) (n : Nat) (hframe : Frame keys n)
+    (_hcast : Faithful keys) (hhint : hint = true → RowsSorted (keyRows n (cols keys))) :
     ∃ kcols counts outKeys, groupbyCount .repaired keys hint = .ok ⟨kcols, [.ints counts]⟩ ∧
       ColumnsOf kcols outKeys ∧ IsGroupCount (keyRows n (cols keys)) outKeys counts ∧ counts.sum = n :=
-  groupby_count_eq_spec_partial keys hint n hframe (same_dtype_faithful hdtype) hhint
+  groupby_count_eq_spec keys hint n hframe hhint
+
+-- D20's first witness: two groups, counts 1 and 2 (as found: ONE group of 3 rows, `Witness.C07.d20_float_collapses_groups`)
+example : groupbyCount .repaired [⟨castF64, [9007199254740993, 9007199254740992, 9007199254740993]⟩, ⟨id, [0, 0, 0]⟩] false =
+    .ok ⟨[[9007199254740992, 9007199254740993], [0, 0]], [.ints [1, 2]]⟩ := by
+  simp only [groupbyCount, ex_g_d20]
+  rfl
 
 /-- `counts_sum_to_n` on its own -/
 theorem counts_sum_to_n (keys : List KeyCol) (hint : Bool) (n : Nat) (hframe : Frame keys n)
-    (hdtype : SameDtype keys) (hhint : hint = true → RowsSorted (keyRows n (cols keys))) :
+    (hhint : hint = true → RowsSorted (keyRows n (cols keys))) :
     ∃ kcols counts, groupbyCount .repaired keys hint = .ok ⟨kcols, [.ints counts]⟩ ∧ counts.sum = n := by
-  obtain ⟨kcols, counts, _, h, _, _, hs⟩ := groupby_count_eq_spec keys hint n hframe hdtype hhint
+  obtain ⟨kcols, counts, _, h, _, _, hs⟩ := groupby_count_eq_spec keys hint n hframe hhint
   exact ⟨kcols, counts, h, hs⟩
 
 example : groupbyCount .repaired [⟨id, [1, 0, 1, 0, 1]⟩, ⟨id, [5, 7, 5, 7, 3]⟩] false =
     .ok ⟨[[0, 1, 1], [7, 3, 5]], [.ints [2, 1, 2]]⟩ := by
-  simp only [groupbyCount, groupby, stack, List.map, List.all, nrows, id, List.length, Nat.zero_add, Nat.reduceAdd, ex_sort]
+  simp only [groupbyCount, ex_g_5]
   rfl
 
 /-- **`df.groupby(by, hint).distinct(ddf)` = `df.drop_duplicates(by, ddf, hint)`**: the distinct key tuples, ascending -/
-theorem drop_duplicates_eq_spec_partial (keys : List KeyCol) (hint : Bool) (n : Nat) (hframe : Frame keys n)
-    (hcast : Faithful keys) (hhint : hint = true → RowsSorted (keyRows n (cols keys))) :
+theorem drop_duplicates_eq_spec (keys : List KeyCol) (hint : Bool) (n : Nat) (hframe : Frame keys n)
+    (hhint : hint = true → RowsSorted (keyRows n (cols keys))) :
     ∃ kcols outKeys, groupbyDistinct .repaired keys hint = .ok ⟨kcols, []⟩ ∧
       ColumnsOf kcols outKeys ∧ DistinctAscending (keyRows n (cols keys)) outKeys := by
   obtain ⟨k0, ks, rfl, hrect⟩ := frame_cases hframe
-  have := groupbyDistinct_spec k0 ks hint n hrect hcast (fun h => sortedRows_of_rowsSorted _ n hrect (hhint h))
+  have := groupbyDistinct_spec k0 ks hint n hrect (fun h => sortedRows_of_rowsSorted _ n hrect (hhint h))
   rw [← keyRows_eq_rowsBy _ n hrect] at this
   exact this
 
-theorem drop_duplicates_eq_spec (keys : List KeyCol) (hint : Bool) (n : Nat) (hframe : Frame keys n)
-    (hdtype : SameDtype keys) (hhint : hint = true → RowsSorted (keyRows n (cols keys))) :
+/-- the statement registered while D20 was open; now a corollary -/
+theorem drop_duplicates_eq_spec_partial (keys : List KeyCol) (hint : Bool) (n : Nat) (hframe : Frame keys n)
+    (_hcast : Faithful keys) (hhint : hint = true → RowsSorted (keyRows n (cols keys))) :
     ∃ kcols outKeys, groupbyDistinct .repaired keys hint = .ok ⟨kcols, []⟩ ∧
       ColumnsOf kcols outKeys ∧ DistinctAscending (keyRows n (cols keys)) outKeys :=
-  drop_duplicates_eq_spec_partial keys hint n hframe (same_dtype_faithful hdtype) hhint
+  drop_duplicates_eq_spec keys hint n hframe hhint
+
+-- D20's second witness: integer keys [10, 9] next to a string key column (`castDec`: "10" < "9" as text). The repaired
+-- code finds the frame unsorted and returns the keys ascending: 9, 10 (as found: 10, 9, `Witness.C07.d20_text_order_not_ascending`)
+private theorem ex_sort_dec : SortIndex.datasetSortIndex [[10, 9], [0, 0]] (List.range 2) = .ok [1, 0] := by
+  simp [SortIndex.datasetSortIndex, SortIndex.sortLoop, SortIndex.sortPass, SortIndex.gather, SortIndex.argsortStable, getE,
+    List.mergeSort, List.zipIdx, List.range, List.range.loop, SortIndex.leKey, List.MergeSort.Internal.splitInTwo]
+example : groupbyDistinct .repaired [⟨castDec, [10, 9]⟩, ⟨id, [0, 0]⟩] false = .ok ⟨[[9, 10], [0, 0]], []⟩ := by
+  have h2 : keysSorted [[10, 9], [0, 0]] = false := by decide
+  simp only [groupbyDistinct, groupby, groupbyCols, readKeys, List.map, List.all, nrows, List.length, Nat.zero_add, Nat.reduceAdd, h2,
+    BEq.rfl, Bool.and_self, if_true, Bool.or_self, Bool.false_eq_true, if_false, ex_sort_dec]
+  rfl
+example : Frame [⟨castDec, [10, 9]⟩, ⟨id, [0, 0]⟩] 2 ∧ ¬ Faithful [⟨castDec, [10, 9]⟩, ⟨id, [0, 0]⟩] := by
+  refine ⟨⟨by simp, by simp⟩, fun h => ?_⟩
+  have := h _ (List.mem_cons_self ..) 9 (by simp) 10 (by simp) (by decide)
+  revert this; decide
 
 example : groupbyDistinct .repaired [⟨id, [1, 0, 1, 0, 1]⟩, ⟨id, [5, 7, 5, 7, 3]⟩] false = .ok ⟨[[0, 1, 1], [7, 3, 5]], []⟩ := by
-  simp only [groupbyDistinct, groupby, stack, List.map, List.all, nrows, id, List.length, Nat.zero_add, Nat.reduceAdd, ex_sort]
+  simp only [groupbyDistinct, ex_g_5]
   rfl
 
 /-! ## the hint -/
 
 /-- **a truthful `hint_keys_is_sorted=True` is unobservable**: on a sorted frame `groupby` returns the same grouping
-    with and without the hint (the sortedness test answers `True` itself, for every variant of the span kernels), hence
-    so do count / min / max / first / last / distinct. -/
-theorem sorted_hint_irrelevant (v : Variant) (keys : List KeyCol) (n : Nat) (hframe : Frame keys n) (hcast : Faithful keys)
+    with and without the hint (the sortedness test answers `True` itself), hence so do count / min / max / first / last /
+    distinct. No hypothesis on the dtypes of the key columns (fix D20). -/
+theorem sorted_hint_irrelevant (keys : List KeyCol) (n : Nat) (hframe : Frame keys n)
+    (hsorted : RowsSorted (keyRows n (cols keys))) :
+    groupby .repaired keys true = groupby .repaired keys false := by
+  obtain ⟨k0, ks, rfl, hrect⟩ := frame_cases hframe
+  exact groupbyCols_hint_irrelevant k0 ks n hrect (sortedRows_of_rowsSorted _ n hrect hsorted)
+
+/-- the statement registered while D20 was open: for EVERY variant of the code (as found: the stacked key array and
+    every variant of the span kernels) under `Faithful keys` -/
+theorem sorted_hint_irrelevant_partial (v : Variant) (keys : List KeyCol) (n : Nat) (hframe : Frame keys n) (hcast : Faithful keys)
     (hsorted : RowsSorted (keyRows n (cols keys))) :
     groupby v keys true = groupby v keys false := by
-  obtain ⟨k0, ks, rfl, hrect⟩ := frame_cases hframe
-  exact groupby_hint_irrelevant v k0 ks n hrect hcast (sortedRows_of_rowsSorted _ n hrect hsorted)
+  cases v with
+  | repaired => exact sorted_hint_irrelevant keys n hframe hsorted
+  | asFound =>
+    obtain ⟨k0, ks, rfl, hrect⟩ := frame_cases hframe
+    exact groupby_hint_irrelevant .asFound k0 ks n hrect hcast (sortedRows_of_rowsSorted _ n hrect hsorted)
 
 theorem sorted_hint_irrelevant_agg (agg : Agg) (keys : List KeyCol) (targets : List Target) (n : Nat) (hframe : Frame keys n)
-    (hcast : Faithful keys) (hsorted : RowsSorted (keyRows n (cols keys))) :
+    (hsorted : RowsSorted (keyRows n (cols keys))) :
     groupbyAgg .repaired agg keys true targets = groupbyAgg .repaired agg keys false targets ∧
     groupbyCount .repaired keys true = groupbyCount .repaired keys false ∧
     groupbyDistinct .repaired keys true = groupbyDistinct .repaired keys false := by
-  have h := sorted_hint_irrelevant .repaired keys n hframe hcast hsorted
+  have h := sorted_hint_irrelevant keys n hframe hsorted
   simp only [groupbyAgg, groupbyCount, groupbyDistinct, h, and_self]
 
+-- mixed dtypes, sorted in the columns' own order but NOT as text ("9" > "10"): the hint changes nothing
+example : groupby .repaired [⟨castDec, [9, 10, 10]⟩, ⟨id, [1, 0, 0]⟩] true = groupby .repaired [⟨castDec, [9, 10, 10]⟩, ⟨id, [1, 0, 0]⟩] false := rfl
+example : RowsSorted (keyRows 3 (cols [⟨castDec, [9, 10, 10]⟩, ⟨id, [1, 0, 0]⟩])) := by simp [RowsSorted, keyRows, cols, tupleLt]
 example : groupby .repaired [⟨id, [0, 0, 1, 1, 1]⟩] true = groupby .repaired [⟨id, [0, 0, 1, 1, 1]⟩] false := rfl
+
+/-! ## fix D20 changes nothing where the stacked code was right -/
+
+/-- **the repair is conservative**: on key columns whose stacking casts are faithful the repaired `groupby` (every key
+    column compared in its own dtype) hands to count / min / max / first / last / distinct exactly the grouping — the same
+    sort index or `None`, the same span array — that the as-found stacked `groupby` handed to them, for every value of the
+    hint (truthful or not); hence every aggregate, every written key column and every error is the same. -/
+theorem stacked_eq_columnwise_on_faithful_keys (keys : List KeyCol) (hint : Bool) (n : Nat) (hframe : Frame keys n)
+    (hcast : Faithful keys) :
+    groupbyStacked .repaired keys hint = groupby .repaired keys hint := by
+  obtain ⟨k0, ks, rfl, hrect⟩ := frame_cases hframe
+  exact groupbyStacked_eq_groupbyCols k0 ks hint n hrect hcast
+
+/-- in particular for a single key and for compound keys of ONE dtype (numpy promotes nothing: all casts are `id`) -/
+theorem repair_unobservable_for_one_dtype (keys : List KeyCol) (hint : Bool) (n : Nat) (hframe : Frame keys n)
+    (hdtype : SameDtype keys) :
+    groupbyStacked .repaired keys hint = groupby .repaired keys hint :=
+  stacked_eq_columnwise_on_faithful_keys keys hint n hframe (same_dtype_faithful hdtype)
+
+-- an unsorted two-key frame of one dtype with an UNtruthful hint: both variants return the spans of the frame as it stands
+example : groupbyStacked .repaired [⟨id, [1, 0, 1, 1]⟩, ⟨id, [5, 7, 7, 7]⟩] true = .ok ⟨none, [0, 1, 2, 4]⟩ ∧
+    groupby .repaired [⟨id, [1, 0, 1, 1]⟩, ⟨id, [5, 7, 7, 7]⟩] true = .ok ⟨none, [0, 1, 2, 4]⟩ := ⟨rfl, rfl⟩
+-- … and the hypothesis cannot be dropped: D20's witness (as found one span, repaired the frame is sorted first)
+example : groupbyStacked .repaired [⟨castF64, [9007199254740993, 9007199254740992, 9007199254740993]⟩, ⟨id, [0, 0, 0]⟩] false =
+    .ok ⟨none, [0, 3]⟩ := rfl
 
 /-! ## the specification determines the result; Session.aggregate_* -/
 
@@ -223,7 +307,7 @@ theorem aggregate_agrees_on_pregrouped (agg : Agg) (index target : List Int) (hi
   have hrect : Rect index.length [index] := by intro c hc; simp at hc; subst hc; rfl
   have hframe : Frame [⟨id, index⟩] index.length := ⟨by simp, by simp⟩
   obtain ⟨kcols, vals, outKeys, h1, _, hg1⟩ := groupby_eq_spec agg [⟨id, index⟩] hint target index.length hframe htarget
-    (by simp [SameDtype]) (fun _ => rowsSorted_of_sortedRows [index] index.length hrect (sortedRows_single index hsorted))
+    (fun _ => rowsSorted_of_sortedRows [index] index.length hrect (sortedRows_single index hsorted))
   obtain ⟨vals', outKeys', h2, hg2⟩ := aggregate_spec agg index target htarget hsorted
   have hrows : keyRows index.length (cols [⟨id, index⟩]) = rowsBy [index] index.length := keyRows_eq_rowsBy [index] _ hrect
   rw [hrows] at hg1
@@ -237,7 +321,7 @@ theorem aggregate_count_agrees_on_pregrouped (index : List Int) (hint : Bool) (h
   have hrect : Rect index.length [index] := by intro c hc; simp at hc; subst hc; rfl
   have hframe : Frame [⟨id, index⟩] index.length := ⟨by simp, by simp⟩
   obtain ⟨kcols, counts, outKeys, h1, _, hg1, _⟩ := groupby_count_eq_spec [⟨id, index⟩] hint index.length hframe
-    (by simp [SameDtype]) (fun _ => rowsSorted_of_sortedRows [index] index.length hrect (sortedRows_single index hsorted))
+    (fun _ => rowsSorted_of_sortedRows [index] index.length hrect (sortedRows_single index hsorted))
   obtain ⟨counts', outKeys', h2, hg2⟩ := aggregateCount_spec index hsorted
   have hrows : keyRows index.length (cols [⟨id, index⟩]) = rowsBy [index] index.length := keyRows_eq_rowsBy [index] _ hrect
   rw [hrows] at hg1
@@ -256,25 +340,32 @@ example : aggregate .repaired .max (.numeric [1, 1, 2, 2, 2, 5]) (some [5, 6, 1,
     `apply_indices_to_index_values`, `apply_spans_index_of_min/max_indexed` — with fix D18 —, `index_of_first/last`), and
     the value column holds for each distinct key tuple the first / last string of its rows in original order, resp. the
     smallest / largest string in bytewise lexicographic order (a proper prefix is smaller). -/
-theorem groupby_indexed_eq_spec_partial (agg : Agg) (keys : List KeyCol) (hint : Bool) (indices values : List Nat) (n : Nat)
-    (hframe : Frame keys n) (hindex : ValidIndex indices values) (hrows : indices.length = n + 1) (hcast : Faithful keys)
+theorem groupby_indexed_eq_spec (agg : Agg) (keys : List KeyCol) (hint : Bool) (indices values : List Nat) (n : Nat)
+    (hframe : Frame keys n) (hindex : ValidIndex indices values) (hrows : indices.length = n + 1)
     (hhint : hint = true → RowsSorted (keyRows n (cols keys))) :
     ∃ kcols out outKeys, groupbyAgg .repaired agg keys hint [.indexed indices values] = .ok ⟨kcols, [.strs out]⟩ ∧
       ColumnsOf kcols outKeys ∧
       IsGroupBy (keyRows n (cols keys)) (decodeRows indices values) (aggSpecStr agg) outKeys out := by
   obtain ⟨k0, ks, rfl, hrect⟩ := frame_cases hframe
-  have := groupbyAgg_indexed_spec agg k0 ks hint indices values n hrect hindex hrows hcast
+  have := groupbyAgg_indexed_spec agg k0 ks hint indices values n hrect hindex hrows
     (fun h => sortedRows_of_rowsSorted _ n hrect (hhint h))
   rw [← keyRows_eq_rowsBy _ n hrect] at this
   exact this
 
-theorem groupby_indexed_eq_spec (agg : Agg) (keys : List KeyCol) (hint : Bool) (indices values : List Nat) (n : Nat)
-    (hframe : Frame keys n) (hindex : ValidIndex indices values) (hrows : indices.length = n + 1) (hdtype : SameDtype keys)
+/-- the statement registered while D20 was open; now a corollary -/
+theorem groupby_indexed_eq_spec_partial (agg : Agg) (keys : List KeyCol) (hint : Bool) (indices values : List Nat) (n : Nat)
+    (hframe : Frame keys n) (hindex : ValidIndex indices values) (hrows : indices.length = n + 1) (_hcast : Faithful keys)
     (hhint : hint = true → RowsSorted (keyRows n (cols keys))) :
     ∃ kcols out outKeys, groupbyAgg .repaired agg keys hint [.indexed indices values] = .ok ⟨kcols, [.strs out]⟩ ∧
       ColumnsOf kcols outKeys ∧
       IsGroupBy (keyRows n (cols keys)) (decodeRows indices values) (aggSpecStr agg) outKeys out :=
-  groupby_indexed_eq_spec_partial agg keys hint indices values n hframe hindex hrows (same_dtype_faithful hdtype) hhint
+  groupby_indexed_eq_spec agg keys hint indices values n hframe hindex hrows hhint
+
+-- mixed key dtypes (int64 beyond 2^53 next to a float64 column) with an indexed-string target "x", "yy", "z": last per group
+example : groupbyAgg .repaired .last [⟨castF64, [9007199254740993, 9007199254740992, 9007199254740993]⟩, ⟨id, [0, 0, 0]⟩] false
+    [.indexed [0, 1, 3, 4] [120, 121, 121, 122]] = .ok ⟨[[9007199254740992, 9007199254740993], [0, 0]], [.strs [[121, 121], [122]]]⟩ := by
+  simp only [groupbyAgg, ex_g_d20]
+  rfl
 
 -- strings "b", "ab", "a" (D18's witness) in one group, "c", "" in another: min = "a", ""
 example : groupbyAgg .repaired .min [⟨id, [0, 0, 0, 1, 1]⟩] false [.indexed [0, 1, 3, 4, 5, 5] [98, 97, 98, 97, 99]] =
@@ -293,7 +384,7 @@ theorem targets_independent (v : Variant) (agg : Agg) (keys : List KeyCol) (hint
   cases hg : groupby v keys hint with
   | error e => simp [hg] at h1
   | ok g =>
-    simp only [hg] at h1 h2 ⊢
+    simp only [hg, aggOf] at h1 h2 ⊢
     cases hw : writeKeys g (keys.map (·.data)) with
     | error e => simp [hw] at h1
     | ok ks =>
